@@ -43,6 +43,7 @@ import (
 	"os/exec"
 	"path/filepath"
 	"sort"
+	"strconv"
 	"strings"
 )
 
@@ -61,17 +62,17 @@ type listPkg struct {
 }
 
 var (
-	repo    = flag.String("repo", "/repo", "repository working tree")
-	rtDir   = flag.String("rt", "/verif/rt", "runtime sources (vrt, vrand, extra files)")
-	outDir  = flag.String("out", "", "output directory (rewritten files + overlay.json)")
-	noRace  = flag.Bool("no-acc", false, "do not insert vrt.Acc shared-variable access events (R8)")
+	repo     = flag.String("repo", "/repo", "repository working tree")
+	rtDir    = flag.String("rt", "/verif/rt", "runtime sources (vrt, vrand, extra files)")
+	outDir   = flag.String("out", "", "output directory (rewritten files + overlay.json)")
+	noRace   = flag.Bool("no-acc", false, "do not insert vrt.Acc shared-variable access events (R8)")
 	fnPoints = flag.Bool("fnpoints", false, "R12: a scheduling point at the entry of every function of 4 or more statements (heap interleavings by effect)")
-	verbose = flag.Bool("v", false, "verbose")
+	verbose  = flag.Bool("v", false, "verbose")
 )
 
 type stats struct {
 	Go, Send, Recv, RangeChan, Close, Mutex, Wg, Rand, MapRange, Now, Exit, Acc, Atomic, FnPoints int
-	Files                                                                       []string
+	Files                                                                                         []string
 }
 
 func main() {
@@ -177,6 +178,31 @@ type rewriter struct {
 	globals map[types.Object]bool
 	noAcc   bool
 	fnPts   bool
+	// rangeWrap: blocks built for `for x := range ch` in a module whose language version gives one
+	// variable per loop (go < 1.22): { x := zero; for … { x, ok = <-ch … } }; a label moves inside
+	rangeWrap map[*ast.BlockStmt]*ast.ForStmt
+}
+
+// sharedLoopVars: the module's go directive is below 1.22 - `for x := range …` declares ONE variable for the
+// whole loop, and a closure that outlives an iteration sees later values.  The rewrite of a range over a channel
+// must keep that (it used to declare x inside the body, which is the 1.22 semantics).
+var sharedLoopVars = func() bool {
+	b, err := os.ReadFile(filepath.Join(*repo, "go.mod"))
+	if err != nil {
+		return false
+	}
+	for _, l := range strings.Split(string(b), "\n") {
+		f := strings.Fields(l)
+		if len(f) == 2 && f[0] == "go" {
+			v := strings.Split(f[1], ".")
+			if len(v) >= 2 {
+				maj, _ := strconv.Atoi(v[0])
+				min, _ := strconv.Atoi(v[1])
+				return maj == 1 && min < 22
+			}
+		}
+	}
+	return false
 }
 
 func instrumentPkg(fset *token.FileSet, imp types.Importer, p *listPkg, overlay map[string]string, st *stats) {
@@ -739,6 +765,13 @@ func (rw *rewriter) stmt(st ast.Stmt) (pre []ast.Stmt, out ast.Stmt) {
 			// insert in front of the label: the label keeps designating the loop
 			pre = p
 		}
+		if blk, ok := o.(*ast.BlockStmt); ok && rw.rangeWrap[blk] != nil {
+			// { x := zero; L: for … }: the label keeps designating the loop
+			n.Stmt = rw.rangeWrap[blk]
+			blk.List[len(blk.List)-1] = n
+			out = blk
+			return
+		}
 		n.Stmt = o
 	case *ast.ExprStmt:
 		pre = rw.accessesIn(n.X, false)
@@ -1168,6 +1201,30 @@ func (rw *rewriter) rangeStmt(n *ast.RangeStmt) (pre []ast.Stmt, out ast.Stmt) {
 			}
 		}
 		body := []ast.Stmt{}
+		if id, isId := n.Key.(*ast.Ident); n.Key != nil && n.Tok == token.DEFINE && isId && id.Name != "_" && sharedLoopVars() {
+			// one variable for the whole loop, as the language version of the module has it
+			valId := ast.NewIdent(strings.Replace(okId.Name, "vrtOk", "vrtVal", 1))
+			body = append(body, &ast.AssignStmt{Lhs: []ast.Expr{valId, okId}, Tok: token.DEFINE, Rhs: []ast.Expr{recv}})
+			body = append(body, &ast.IfStmt{Cond: &ast.UnaryExpr{Op: token.NOT, X: okId}, Body: &ast.BlockStmt{List: []ast.Stmt{&ast.BranchStmt{Tok: token.BREAK}}}})
+			// the receive (a synchronisation) and the write of the loop variable are two statements: the write
+			// is an access event when a goroutine closure captures the variable
+			if o, ok := rw.info.Defs[id].(*types.Var); ok && !rw.noAcc && (rw.shared[o] || rw.globals[o]) {
+				body = append(body, rw.accStmt(ast.NewIdent(id.Name), true, n))
+			}
+			body = append(body, &ast.AssignStmt{Lhs: []ast.Expr{ast.NewIdent(id.Name)}, Tok: token.ASSIGN, Rhs: []ast.Expr{ast.NewIdent(valId.Name)}})
+			body = append(body, n.Body.List...)
+			loop := &ast.ForStmt{For: n.For, Cond: rw.call("BeforeRecv", ch), Body: &ast.BlockStmt{Lbrace: n.Body.Lbrace, List: body, Rbrace: n.Body.Rbrace}}
+			blk := &ast.BlockStmt{List: []ast.Stmt{
+				&ast.AssignStmt{Lhs: []ast.Expr{ast.NewIdent(id.Name)}, Tok: token.DEFINE, Rhs: []ast.Expr{rw.call("ZeroOf", ch)}},
+				&ast.AssignStmt{Lhs: []ast.Expr{ast.NewIdent("_")}, Tok: token.ASSIGN, Rhs: []ast.Expr{ast.NewIdent(id.Name)}},
+				loop}}
+			if rw.rangeWrap == nil {
+				rw.rangeWrap = map[*ast.BlockStmt]*ast.ForStmt{}
+			}
+			rw.rangeWrap[blk] = loop
+			out = blk
+			return
+		}
 		if n.Key != nil && n.Tok == token.DEFINE {
 			body = append(body, first)
 			if id, ok := n.Key.(*ast.Ident); ok && id.Name != "_" {
